@@ -274,6 +274,8 @@ class Ranger:
                     r = (0, hi)
                 elif op == "Rem" and a[0] >= 0 and b[0] > 0:
                     r = (0, min(a[1], b[1] - 1))
+                elif op == "Div" and a[0] >= 0 and b[0] > 0:
+                    r = (a[0] // b[1], a[1] // b[0])
                 elif op == "Shr" and a[0] >= 0 and b[0] >= 0:
                     r = (a[0] >> b[1], a[1] >> b[0])
                 elif op == "Shl" and a[0] >= 0 and b[0] >= 0 and b[1] < 128:
